@@ -134,11 +134,12 @@ ScanNum(s, p, acc, nd) ==
   IF p <= Len(s) /\ IsDigit(s[p])
   THEN ScanNum(s, p + 1, IF nd >= 9 \/ acc < 0 THEN -1 ELSE acc * 10 + (s[p] - 48), nd + 1)
   ELSE <<acc, p, nd>>
-\* index after n payload bytes starting at p; 0 if the input ends first or n ends inside an opaque run
+\* index after n payload bytes starting at p; 0 if the input ends first, -1 if n ends inside an opaque run (the
+\* rest of the run would then have to start a token, which payload bytes never do)
 RECURSIVE Take(_, _, _)
 Take(s, p, n) == IF n = 0 THEN p
                  ELSE IF p > Len(s) THEN 0
-                 ELSE IF W(s[p]) > n THEN 0
+                 ELSE IF W(s[p]) > n THEN -1
                  ELSE Take(s, p + 1, n - W(s[p]))
 
 DecInt(s, p) ==
@@ -157,7 +158,9 @@ DecStr(s, p) ==
      ELSE IF s[num[2]] # 58 THEN Fail("badlen")
      ELSE IF num[1] < 0 THEN Fail("truncated")
      ELSE LET e == Take(s, num[2] + 1, num[1])
-          IN IF e = 0 THEN Fail("truncated") ELSE Good(S(SubSeq(s, num[2] + 1, e - 1)), e, ~(num[3] > 1 /\ s[p] = 48))
+          IN IF e = 0 THEN Fail("truncated")
+             ELSE IF e < 0 THEN Fail("split")
+             ELSE Good(S(SubSeq(s, num[2] + 1, e - 1)), e, ~(num[3] > 1 /\ s[p] = 48))
 
 RECURSIVE Dec(_, _, _), DecList(_, _, _, _, _), DecDict(_, _, _, _, _)
 Dec(s, p, depth) ==
